@@ -210,6 +210,7 @@ struct Timing {
   u64 attach_ret = 0;               // after the digest continuation has been attached to the output
   bool ready_at_ret = false;
   bool valid = true;
+  bool drop_output = false;  // the output future is destroyed right away instead of being consumed
 };
 
 // visibility interval of input i (DESIGN §3 C09)
@@ -264,6 +265,11 @@ void RunScenario(Ctx& ctx, std::vector<InSpec>& in, std::vector<Chan<V0>>& ch, T
     }
     tm.ready_at_ret = out.Ready();
     tm.when_ret = Stamp();
+    if (tm.drop_output) {
+      auto dead = std::move(out);  // nobody will look at the result; inputs must still be consumed and released
+      tm.attach_ret = Stamp();
+      return;
+    }
     using OutV = typename std::remove_reference_t<decltype(out)>::Core::Value;
     std::move(out).DetachInline([&obs, &in](Result<OutV, MyError>&& r) {
       DigestOut(obs, r, in);
@@ -330,13 +336,13 @@ void AllCase(Ctx& ctx, int form) {
     ch[static_cast<std::size_t>(i)].Make(in[static_cast<std::size_t>(i)].shared);
   }
   Timing tm;
+  tm.drop_output = ctx.rng.Below(6) == 0;
   OutObs obs;
   int nfail = 0;
   for (auto& s : in) {
     nfail += s.kind != kVal;
   }
-  ctx.Note("WhenAll<%s> form=%s n=%d fails=%d setup-yields=%u inputs=[", PolicyName(P), kAllFormName[form], n, nfail,
-           setup_jit);
+  ctx.Note("%sWhenAll<%s> form=%s n=%d fails=%d setup-yields=%u inputs=[", tm.drop_output ? "(output dropped) " : "", PolicyName(P), kAllFormName[form], n, nfail, setup_jit);
   for (auto& s : in) {
     ctx.Note("%s%s:%d/y%u ", s.shared ? "S" : "U", s.kind == kVal ? "val" : s.kind == kErr ? "err" : "exc", s.code,
              s.jit);
@@ -418,6 +424,11 @@ void AllCase(Ctx& ctx, int form) {
   if (!tm.valid) {
     ctx.Fail("unexpected-invalid", "C09", "WhenAll over %d inputs returned an invalid future", n);
     return;
+  }
+  if (tm.drop_output) {
+    ctx.Class("output-dropped");
+    ctx.Check(obs.calls.load(kRlx) == 0, "output-exactly-once", "C09", "a continuation ran although the output was dropped");
+    return;  // release of every input is judged by the tracked-object and ASan oracles
   }
   CheckCommon(ctx, obs, in, "C09");
   if (obs.calls.load(kRlx) != 1) {
@@ -721,6 +732,7 @@ void AnyCase(Ctx& ctx, int form) {
     ch[static_cast<std::size_t>(i)].Make(in[static_cast<std::size_t>(i)].shared);
   }
   Timing tm;
+  tm.drop_output = ctx.rng.Below(6) == 0;
   OutObs obs;
   int nfail = 0;
   for (auto& s : in) {
@@ -803,6 +815,11 @@ void AnyCase(Ctx& ctx, int form) {
   }
   if (!tm.valid) {
     ctx.Fail("unexpected-invalid", "C10", "WhenAny over %d inputs returned an invalid future", n);
+    return;
+  }
+  if (tm.drop_output) {
+    ctx.Class("output-dropped");
+    ctx.Check(obs.calls.load(kRlx) == 0, "output-exactly-once", "C10", "a continuation ran although the output was dropped");
     return;
   }
   CheckCommon(ctx, obs, in, "C10");
